@@ -94,6 +94,59 @@ theorem gather_fuel_suffices (π : List Name) (inp : Inputs) (k : Nat)
 example : fuelFor (builtinsFor sample) (keysOf (builtinsFor sample) sortedNames) sample
     (finalConfig sample) ≤ 100 := by decide
 
+/-! ### The main section: `GIT_CONFIG_PARAMETERS` over the file -/
+
+/-- Every `impl GitConfigGet for T` (String, Option<String>, bool, usize, f64) consults
+    `GIT_CONFIG_PARAMETERS` before the file — a fact about the table the extractor regenerates
+    from src/git_config/mod.rs on every run. -/
+theorem all_getters_env_first : ∀ ty : GType, envFirst ty = true := by
+  intro ty
+  cases ty <;> decide
+
+/-- For every getter type, a key of the main `[delta]` section given in `GIT_CONFIG_PARAMETERS`
+    (`git -c delta.k=v`) with a value the getter takes wins over whatever the file says. -/
+theorem git_config_parameters_override_file (g : GitCfg) (ty : GType) (k : Name) (v : String)
+    (he : g.enabled = true) (hp : lookup k g.params = some v) (ha : envAccepts ty v = true) :
+    g.getT ty none k = some v := by
+  unfold GitCfg.getT
+  simp [he, hp, ha, all_getters_env_first ty, Option.filter]
+
+/-- … lifted through `effective_value_spec`: unless the option is given on the command line, its
+    effective value is the `GIT_CONFIG_PARAMETERS` value — the file's `[delta]` section, every
+    feature and every builtin default notwithstanding. -/
+theorem git_config_parameters_override_effective (π : List Name) (inp : Inputs) (g : GitCfg)
+    (o : Name) (v : String) (hg : finalConfig inp = some g) (he : g.enabled = true)
+    (hcli : lookup o inp.cli = none) (hp : lookup o g.params = some v)
+    (ha : envAccepts (optionType o) v = true) :
+    effective π inp o = .git v := by
+  rw [effective_value_spec]
+  unfold layers
+  simp [hcli, hg, optGet, git_config_parameters_override_file g (optionType o) o v he hp ha, firstSome]
+
+/-- `[delta] width = 60, tabs = 3, max-line-distance = 0.3, navigate = false, file-style = green`
+    in the file, all five overridden by `git -c`, and a feature that sets them as well. -/
+def both : Inputs :=
+  { noInputs with
+    cliFeatures := some "a"
+    params := [("width", "40"), ("tabs", "4"), ("max-line-distance", "0.5"), ("navigate", "true"),
+               ("file-style", "yellow")]
+    configFile := some
+      { main := [("width", "60"), ("tabs", "3"), ("max-line-distance", "0.3"), ("navigate", "false"),
+                 ("file-style", "green")],
+        sections := [("a", [("width", "50"), ("tabs", "5"), ("file-style", "blue")])],
+        other := [] } }
+
+example : (optionType "width", optionType "tabs", optionType "max-line-distance", optionType "navigate",
+    optionType "file-style") = (.optString, .usize, .f64, .bool, .string) := by decide
+example : (effective sortedNames both "width", effective sortedNames both "tabs",
+    effective sortedNames both "max-line-distance", effective sortedNames both "navigate",
+    effective sortedNames both "file-style") =
+    (.git "40", .git "4", .git "0.5", .git "true", .git "yellow") := by decide
+-- a parameter text the typed getter does not take falls through to the file
+example : effective sortedNames { both with params := [("tabs", "x"), ("navigate", "yes")] } "tabs" = .git "3" ∧
+    effective sortedNames { both with params := [("tabs", "x"), ("navigate", "yes")] } "navigate" = .git "false" := by
+  decide
+
 /-! ### The gathered feature list is the documented order -/
 
 /-- `gather_eq_spec`. With a git config object present, the list `gather_features` builds —
@@ -170,7 +223,7 @@ theorem effective_value_documented_order (π : List Name) (inp : Inputs) (g : Gi
       ∀ c ∈ keysOf (builtinsFor inp) π, g.getBool (some b) c ≠ some true)
     (d : Nat) (hd : B ≤ d) (o : Name) :
     effective π inp o =
-      (firstSome ([(lookup o inp.cli).map Val.cli, (g.get none o).map Val.git] ++
+      (firstSome ([(lookup o inp.cli).map Val.cli, (g.getT (optionType o) none o).map Val.git] ++
         (specOrder d (keysOf (builtinsFor inp) π) inp g).flatMap
           (featureLayers (builtinsFor inp) (some g) o))).getD .dflt := by
   rw [effective_value_spec, ← gather_eq_spec π inp g hg rk B hdec hbound hB hπ hreg d hd]
